@@ -440,6 +440,7 @@ func c11BatchAndParams(c *Ctx) {
 	c11BodyLimitConstant(c)
 	c11NullRequired(c)
 	c11OneMessagePerWrite(c)
+	c11NumbersExact(c, "numbers-exact")
 	c11UnknownNameRejected(c)
 	p := c.P
 	if f := p.Func("jsonrpc", "Server", "handleBatchRequest"); f != nil {
@@ -1050,5 +1051,70 @@ func c11OneMessagePerWrite(c *Ctx) {
 	}
 	if n == 0 {
 		c.und("one-message-per-write", "jsonrpc websocket transport", "", "no websocket.Conn.Write call found")
+	}
+}
+
+// c11NumbersExact: (numbers-exact) numbers of a request keep their digits until they are decoded into the handler's own
+// type: every json.Decoder the server creates has UseNumber() called on it before its first Decode, and no Request value is
+// filled by a plain json.Unmarshal (which decodes numbers in `any` positions as float64). Seeded change C08-M drops
+// UseNumber "to get rid of reflection": a block number or index above 2^53 is rounded — the node answers about a different
+// block than the one asked for (or rejects max-uint64 as invalid params instead of "block not found").
+func c11NumbersExact(c *Ctx, rule string) {
+	p := c.P
+	n := 0
+	for _, fn := range p.sortedFuncs() {
+		if pkgRelOf(fn) != "jsonrpc" || fn.Origin() != nil || strings.HasSuffix(p.Pos(fnPos(fn)), "_test.go") || p.InFixture(fnPos(fn)) {
+			continue
+		}
+		for _, s := range sitesOf(fn) {
+			nm := s.CalleeName()
+			if strings.HasSuffix(nm, "json.NewDecoder") {
+				n++
+				dec, ok := s.Instr.(ssa.Value)
+				if !ok {
+					continue
+				}
+				var use []ssa.Instruction
+				var decodes []ssa.Instruction
+				for _, t := range sitesOf(fn) {
+					if t.Recv == nil || t.Recv != dec {
+						continue
+					}
+					switch {
+					case strings.HasSuffix(t.CalleeName(), "Decoder).UseNumber"):
+						use = append(use, t.Instr)
+					case strings.HasSuffix(t.CalleeName(), "Decoder).Decode"):
+						decodes = append(decodes, t.Instr)
+					}
+				}
+				okd := len(use) > 0
+				for _, d := range decodes {
+					dom := false
+					for _, u := range use {
+						if dominatesInstr(u, d) {
+							dom = true
+						}
+					}
+					if !dom {
+						okd = false
+					}
+				}
+				// a decoder handed on (not decoded here) must have been switched before it leaves
+				c.check(okd, rule, qname(fn)+": json.NewDecoder", p.Pos(s.Pos()), "UseNumber() before the first Decode", "a JSON decoder of the server decodes without UseNumber(): numbers in `any` positions (params, ids) become float64 and lose digits above 2^53 — a block number or index is rounded before the handler's own type ever sees it")
+			}
+			if strings.HasSuffix(nm, "json.Unmarshal") && len(s.Args()) >= 2 {
+				tt := s.Args()[1].Type().String()
+				if mi, ok := s.Args()[1].(*ssa.MakeInterface); ok {
+					tt = mi.X.Type().String()
+				}
+				if strings.Contains(tt, "jsonrpc.Request") {
+					n++
+					c.viol(rule, qname(fn)+": json.Unmarshal into a Request", p.Pos(s.Pos()), "a request is filled by a plain json.Unmarshal: its params (typed any) decode numbers as float64 and lose digits above 2^53")
+				}
+			}
+		}
+	}
+	if n == 0 {
+		c.und(rule, "jsonrpc decoders", "", "no json.NewDecoder call found in package jsonrpc")
 	}
 }
